@@ -199,13 +199,33 @@ Definition operations (A : Type) (eqb : A -> A -> bool) (a b : list A) : res (li
 (* ---------------------------------------------------------------- text level *)
 
 Definition NL : N := 10%N.
+Definition CR : N := 13%N.
 
-(* splitLines: strings.SplitAfter(text, "\n") without a final empty element *)
+(* does the byte c, followed by the text s', end a line?  '\n', or a '\r' that is not the
+   first half of "\r\n"  (the three line terminators of the LSP specification) *)
+Definition eol_here (c : N) (s' : str) : bool :=
+  N.eqb c NL ||
+  (N.eqb c CR && negb (match s' with d :: _ => N.eqb d NL | [] => false end)).
+
+(* splitLines of the pinned commit (strings.SplitAfter(text, "\n") without a final empty
+   element); kept for the regression theorem compute_edits_sound_pinned_refuted *)
+Fixpoint split_lines_pinned (s : str) : list str :=
+  match s with
+  | [] => []
+  | c :: s' =>
+      if N.eqb c NL then [c] :: split_lines_pinned s'
+      else match split_lines_pinned s' with
+           | [] => [[c]]
+           | l :: ls => (c :: l) :: ls
+           end
+  end.
+
+(* splitLines: cut after every line terminator; a non-empty unterminated rest is the last line *)
 Fixpoint split_lines (s : str) : list str :=
   match s with
   | [] => []
   | c :: s' =>
-      if N.eqb c NL then [c] :: split_lines s'
+      if eol_here c s' then [c] :: split_lines s'
       else match split_lines s' with
            | [] => [[c]]
            | l :: ls => (c :: l) :: ls
@@ -228,8 +248,11 @@ Definition edit_of_op (after_lines : list str) (o : op) : list text_edit :=
       end
   end.
 
-Definition compute_edits (before after : str) : res (list text_edit) :=
-  let la := split_lines before in
-  let lb := split_lines after in
+Definition compute_edits_with (split : str -> list str) (before after : str) : res (list text_edit) :=
+  let la := split before in
+  let lb := split after in
   do ops <- operations str str_eqb la lb;
   Ok (flat_map (edit_of_op lb) ops).
+
+Definition compute_edits : str -> str -> res (list text_edit) := compute_edits_with split_lines.
+Definition compute_edits_pinned : str -> str -> res (list text_edit) := compute_edits_with split_lines_pinned.
